@@ -54,12 +54,12 @@ AXES = {
 # orientation / depth), so that a result cached or left over under a key
 # that is too coarse shows up as a history dependence
 OPS_ALL = ["holo-mieA", "holo-mieA2", "holo-mieA3", "holo-tmA", "holo-tmA2",
-           "holo-mie-far",
+           "holo-mie-far", "holo-mie-norad",
            "holo-mieB", "holo-ms2", "holo-ms2b", "holo-mielens",
            "holo-mielens2", "xsec-mie", "smat-tm", "holo-tmB", "holo-ms1",
            "holo-tmcyl", "holo-tmsph", "holo-layered"]
-OPS = {"quick": OPS_ALL[:13], "thorough": OPS_ALL}
-CORE = OPS_ALL[:6]
+OPS = {"quick": OPS_ALL[:14], "thorough": OPS_ALL + ["holo-mie-nofull"]}
+CORE = OPS_ALL[:7]
 
 
 def cases(tier, seed):
@@ -309,6 +309,14 @@ def _op(name):
     elif name == "holo-mie-far":
         # the same Mie theory OBJECT, detector points about 1 mm away
         r = calc_holo(S["detfar"], S["mie"][0], theory=S["mie"][1], **kw)
+    elif name == "holo-mie-norad":
+        # same sphere, a theory object with the radial component switched
+        # off (the Fortran kernel takes a different branch)
+        r = calc_holo(det, S["mie"][0],
+                      theory=Mie(compute_escat_radial=False), **kw)
+    elif name == "holo-mie-nofull":
+        r = calc_holo(det, S["mie"][0],
+                      theory=Mie(full_radial_dependence=False), **kw)
     elif name in ("holo-mieA2", "holo-mieA3"):
         r = calc_holo(det, S[name[5:]], theory=S["mie"][1], **kw)
     elif name == "holo-tmA2":
